@@ -613,7 +613,7 @@ func gen(r *rand.Rand, tier string, n int) []any {
 			{{"=", "a", "2"}, {"!=", "b", "1"}},
 			{{"=~", "a", "2|3"}, {"=~", "b", "1|4"}},
 		}[r.Intn(13)]
-		if in.Lazy && r.Intn(5) != 0 { // two posting groups on different labels: the second is expanded lazily
+		if in.Lazy && r.Intn(3) != 0 { // two posting groups on different labels: the second is expanded lazily
 			in.Matchers = [][]mreq{
 				{{"=", "a", "1"}, {"=~", "b", "1|2|3"}},
 				{{"=~", "a", "1|2|3"}, {"=", "b", "1"}},
@@ -628,7 +628,13 @@ func gen(r *rand.Rand, tier string, n int) []any {
 		dry := in
 		dry.Limit, dry.ChunkLimit = 0, 0
 		var sTot, cTot uint64
-		if _, err := runStore(dry); err == nil {
+		trueSeries := uint64(0)
+		if dc, err := runStore(dry); err == nil {
+			if m, ok := dc.Obs.(map[string]any); ok {
+				if v, ok := m["true_series"].(int); ok {
+					trueSeries = uint64(v)
+				}
+			}
 			fx.mtx.Lock()
 			for _, v := range fx.sres {
 				sTot += v
@@ -652,6 +658,9 @@ func gen(r *rand.Rand, tier string, n int) []any {
 			return uint64(v)
 		}
 		in.Limit, in.ChunkLimit = pick(sTot), pick(cTot)
+		if r.Intn(4) == 0 && trueSeries >= 2 { // just below what the client would receive, whatever was reserved
+			in.Limit = trueSeries - 1
+		}
 		if r.Intn(5) == 0 { // the request's own Limit: limiter limits off or generous, so that the result does not
 			// depend on how many batches were asked for before the merged stream was cut
 			in.ReqLimit = int64(1 + r.Intn(4))
